@@ -115,6 +115,20 @@ def check_member_dir(res, mdir, mo, collects, what=""):
     if mo["unmatched"]:
         if "unmatched.csv" not in files or read_csv_bytes(files["unmatched.csv"]) != mo["unmatched"]:
             bad("unmatched.csv does not parse back to the unmatched lines")
+    # the csv model on the two csv files: the text the writer left, and the reader's reading of it
+    import driver as _driver
+
+    for fn in ("data.csv", "unmatched.csv"):
+        if files.get(fn):
+            try:
+                text = files[fn].decode("utf-8")
+                rows = read_csv_bytes(files[fn])
+            except Exception:  # noqa: BLE001
+                continue
+            cm = _driver.ask({"op": "csv", "crlf": True, "delim": ",", "quote": '"', "recs": rows})
+            if cm["text"] != text or cm["read"] != rows:
+                res.setdefault("disagree", []).append({"what": f"csv model: {fn} as written / as read back", "real_text": text[:300],
+                                                       "model_text": cm["text"][:300], "real_rows": rows[:5], "model_rows": (cm["read"] or [])[:5]})
     # manifest
     if man.get("valid") != mo["valid"]:
         bad("manifest valid", disk=man.get("valid"), memory=mo["valid"])
